@@ -92,7 +92,7 @@ def build_m2(fault, arg, acc, other, ios_pub, eph_seed, pin_seed):
     items, shared, acc_pub = hap.pv_m2(acc, eph_seed, ios_pub)
     honest = tlv8.encode(items)
     f = fault
-    if f in ("honest", "m4-state-bitflip", "m4-extra", "m4-error"):
+    if f in ("honest", "m4-state-bitflip", "m4-state-alter", "m4-extra", "m4-error"):
         return honest, honest, shared, acc_pub
     if f == "wire-bitflip":
         return _flip(honest, arg), honest, shared, acc_pub
@@ -168,6 +168,16 @@ def build_m2(fault, arg, acc, other, ios_pub, eph_seed, pin_seed):
         kw["enc_key"] = C.det_bytes(pin_seed, "wrongkey")
     elif f == "enc-wrong-nonce":
         kw["nonce"] = arg.encode()
+    elif f == "inner-extra-pk":
+        # the encrypted sub-TLV carries an exchange key of its own and the signature covers THAT key, not the one the session is computed with
+        other_pk = C.x_pub_bytes(C.x_priv(C.det_bytes(pin_seed, "inner-pk")))
+        sig = acc.sign(other_pk + acc.id + ios_pub)
+        extra = (hap.T_PK, other_pk)
+        kw["sub_edit"] = lambda sub: ([extra] if arg == "first" else []) + [(hap.T_ID, acc.id), (hap.T_SIG, sig)] + ([extra] if arg == "last" else [])
+    elif f == "m2-state-alter":
+        it, _, _ = hap.pv_m2(acc, eph_seed, ios_pub)
+        alt = STATE_ALTER[arg](b"\x02")
+        return tlv8.encode([(t, v) for t, v in it if t != hap.T_STATE][:0] + [x for t, v in it for x in (alt if t == hap.T_STATE else [(t, v)])]), honest, shared, acc_pub
     elif f == "mitm-own-dh":
         # attacker runs X25519 himself with his own ephemeral and signs with his own long-term key, claiming the stored id
         it, _, _ = hap.pv_m2(hap.Identity(pin_seed, "mitm", acc.id), C.det_bytes(pin_seed, "mitm-eph"), ios_pub)
@@ -216,6 +226,8 @@ def case_verify(p):
     m4 = tlv8.encode([(hap.T_STATE, b"\x04")])
     if fault == "m4-state-bitflip":
         m4 = tlv8.encode([(hap.T_STATE, _flip(b"\x04", arg))])
+    elif fault == "m4-state-alter":
+        m4 = tlv8.encode(STATE_ALTER[arg](b"\x04"))
     elif fault == "m4-extra":
         m4 = tlv8.encode([(hap.T_STATE, b"\x04"), (arg, b"\x01")]) if arg != hap.T_STATE else tlv8.encode([(hap.T_STATE, b"\x04"), (255, b""), (hap.T_STATE, b"\x05")])
     elif fault == "m4-error":
@@ -223,9 +235,9 @@ def case_verify(p):
         m4 = tlv8.encode([(hap.T_STATE, b"\x04"), (hap.T_ERROR, bytes(arg))])
     st = pairdrv.send(gen, m4, expected3, style)
     det["outcome"] = st.label
-    if fault == "m4-state-bitflip":
+    if fault in ("m4-state-bitflip", "m4-state-alter"):
         if st.kind != "raise":
-            out.append(("wrong-state-m4-accepted", det))
+            out.append(("wrong-state-m4-accepted" if fault == "m4-state-bitflip" else f"altered-state-m4-accepted:{arg}", det))
         return out
     if fault == "m4-error":
         if st.kind != "raise":
@@ -421,6 +433,12 @@ def _work(item, seed, tier):
     return acc
 
 
+# a state item whose value is the right number with something added that a numeric comparison would not see
+STATE_ALTER = {
+    "zero-ext": lambda s_: [(hap.T_STATE, s_ + b"\x00")], "zero-ext-3": lambda s_: [(hap.T_STATE, s_ + b"\x00\x00")], "lead-zero": lambda s_: [(hap.T_STATE, b"\x00" + s_)],
+    "two-items": lambda s_: [(hap.T_STATE, s_), (hap.T_STATE, b"\x00")],  # equal-typed neighbours without separator: one value to a TLV8 reader
+    "ff-ext": lambda s_: [(hap.T_STATE, s_ + b"\xff")],
+}
 ID_VARIANTS = {
     "lower": lambda i: i.lower(), "upper": lambda i: i.upper(), "swapcase": lambda i: i.swapcase(), "title": lambda i: i.title(),
     "space-after": lambda i: i + b" ", "space-before": lambda i: b" " + i, "nul-after": lambda i: i + b"\x00", "shorter": lambda i: i[:-1],
@@ -439,6 +457,7 @@ def faults(quick, seed):
     f += [("reseal:sig-trunc", n) for n in (0, 1, 32, 63)]
     f += [("wrong-ltsk", None), ("other-accessory", None), ("right-key-other-id", None), ("claimed-right-id-signed-other-id", None)]
     f += [("right-key-id-variant", v) for v in ID_VARIANTS]
+    f += [("inner-extra-pk", a) for a in ("first", "last")] + [("m2-state-alter", a) for a in STATE_ALTER] + [("m4-state-alter", a) for a in STATE_ALTER]
     f += [("transcript", perm) for perm in PERMS]
     f += [("replay-sig", None), ("replay-sig-other-acc-eph", None), ("replay-whole", None), ("mitm-own-dh", None)]
     f += [("pk-len", n) for n in (0, 1, 31, 33, 64)] + [("pk-zero", None), ("pk-other", None)]
